@@ -509,7 +509,12 @@ fn exec_op(w: &mut World, ws: &[&str]) -> String {
             }
         }
         ["refresh"] => match w.rt.block_on(refresh_node_registry(&mut w.reg, &ctl, false, false, false)) {
-            Ok(()) => "ok".into(),
+            Ok(()) => {
+                // a refresh re-records every live process (theorem refresh_reestablishes): the running-has-process
+                // clause is required of all services again from here on
+                w.killed = false;
+                "ok".into()
+            }
             Err(e) => format!("err:{}", mgr_err(&e)),
         },
         ["kill", i] => {
@@ -625,16 +630,8 @@ fn oracle(w: &World, info: &OpInfo, history: &[String], out: &mut Out) {
     }
     // a service recorded Running has a live process with the recorded pid
     // (processes killed behind the manager's back are outside the property's quantifier: after a `kill`
-    //  the clause is only required of what a successful start / refresh has just re-established)
-    let check_running: Vec<usize> = if !info.killed {
-        (0..s1.len()).collect()
-    } else {
-        match info.ws {
-            ["start", i, ..] if !failed => i.parse().ok().into_iter().filter(|i| *i < s1.len()).collect(),
-            ["refresh"] => (0..s1.len()).collect(),
-            _ => vec![],
-        }
-    };
+    //  the clause is required again once a refresh has re-recorded the live processes)
+    let check_running: Vec<usize> = if !info.killed { (0..s1.len()).collect() } else { vec![] };
     for i in check_running {
         let x = &s1[i];
         if x.status == ServiceStatus::Running && !p1.iter().any(|p| p.exe == x.bin && Some(p.pid) == x.pid) {
